@@ -8,6 +8,10 @@
 use std::sync::atomic::{AtomicUsize, Ordering};
 
 pub mod c01;
+pub mod c02;
+pub mod c03;
+pub mod c16;
+pub mod ctxgen;
 pub mod hirsample;
 pub mod inputgen;
 pub mod model;
@@ -145,6 +149,9 @@ fn main() {
             let body = if v.get("replay").is_some() { &v["replay"] } else { &v };
             let rep = match args[2].to_ascii_lowercase().as_str() {
                 "c01" => c01::replay(body),
+                "c02" => c02::replay(body),
+                "c03" => c03::replay(body),
+                "c16" => c16::replay(body),
                 p => {
                     eprintln!("no replay for {}", p);
                     std::process::exit(2)
@@ -189,6 +196,9 @@ fn main() {
             }
             let rep = match prop.to_ascii_lowercase().as_str() {
                 "c01" => c01::run(&ctx),
+                "c02" => c02::run(&ctx),
+                "c03" => c03::run(&ctx),
+                "c16" => c16::run(&ctx),
                 _ => usage(),
             };
             let mut j = rep.to_json();
